@@ -174,14 +174,14 @@ AggFold(c, acc, rows) ==
 AggRow(c, e) ==   \* result row of one bucket e = <<group, [cnt, sum]>>
    IF c.op = "stats"
    THEN LET base == IF c.by = "" THEN <<>> ELSE (c.by :> e[1][1])
-        IN IF c.fn = "count" THEN base @@ ("count" :> e[2].cnt) ELSE base @@ ("sum" :> e[2].sum)
-   ELSE (c.f :> e[1][1]) @@ ("count" :> e[2].cnt)
+        IN IF c.fn = "count" THEN base @@ ("cnt" :> e[2].cnt) ELSE base @@ ("sm" :> e[2].sum)
+   ELSE (c.f :> e[1][1]) @@ ("cnt" :> e[2].cnt)
 (* an order of the buckets the command may produce: stats - any; top - count descending; rare - count ascending *)
 AggOrdered(c, s) == \A i \in 1..(Len(s) - 1) :
                        CASE c.op = "top" -> s[i][2].cnt >= s[i + 1][2].cnt
                          [] c.op = "rare" -> s[i][2].cnt <= s[i + 1][2].cnt
                          [] OTHER -> TRUE
-AggLimit(c) == IF c.op = "stats" THEN 10000 ELSE c.lim
+AggLimit(c) == IF c.op = "stats" \/ c.lim = 0 THEN 10000 ELSE c.lim
 (* canonical choice of the model: buckets by (count, group value) *)
 AggBefore(c, e1, e2) == CASE c.op = "top" -> e1[2].cnt > e2[2].cnt \/ (e1[2].cnt = e2[2].cnt /\ e1[1][1] < e2[1][1])
                           [] c.op = "rare" -> e1[2].cnt < e2[2].cnt \/ (e1[2].cnt = e2[2].cnt /\ e1[1][1] < e2[1][1])
@@ -392,6 +392,28 @@ Sem(c, rows) ==
 RECURSIVE SemFrom(_, _, _)
 SemFrom(ch, i, S) == IF i > Len(ch) THEN S ELSE SemFrom(ch, i + 1, UNION {Sem(ch[i], r) : r \in S})
 SemChain(ch, tb) == SemFrom(ch, 1, {tb})
+
+(* ---------- several upstream chains ----------
+   CanParallelSearch (queryprocessor.go:135): the chain is cloned GOMAXPROCS times up to its first bottleneck
+   command when no command before it depends on the input order and one of them (the bottleneck included) ignores
+   it; the clones pull batches from the shared searcher in whatever order the goroutines run and are merged
+   (mergeProcessor / fetchFromAnyStream).  The merge itself is not modelled operationally; what TLC checks is that
+   the reference semantics - the oracle the harness uses for runs with two upstream streams - does not depend on how
+   the rows are distributed over the streams. *)
+InputOrderMatters(c) == c.op \in {"head", "tail", "dedup", "streamstats"}
+IgnoresInputOrder(c) == c.op \in {"sort", "stats", "top", "rare"}
+RECURSIVE CanSplitFrom(_, _, _)
+CanSplitFrom(ch, i, cs) == IF i > Len(ch) THEN FALSE
+                           ELSE IF InputOrderMatters(ch[i]) THEN FALSE
+                           ELSE IF Bottleneck(ch[i]) THEN cs \/ IgnoresInputOrder(ch[i])
+                           ELSE CanSplitFrom(ch, i + 1, cs \/ IgnoresInputOrder(ch[i]))
+ParSplittable(ch) == CanSplitFrom(ch, 1, FALSE)
+Assignments(n) == [1..n -> {1, 2}]
+Part(tb, asg, k) == SelectSeq([i \in 1..Len(tb) |-> <<asg[i], tb[i]>>], LAMBDA x : x[1] = k)
+Rows2(tb, asg, k) == [i \in 1..Len(Part(tb, asg, k)) |-> Part(tb, asg, k)[i][2]]
+SplitInvariant == (pc = "rows" /\ ParSplittable(chain)) =>
+                     \A asg \in Assignments(Len(table)) :
+                        SemChain(chain, Rows2(table, asg, 1) \o Rows2(table, asg, 2)) = SemChain(chain, table)
 
 (* ---------- the property ---------- *)
 Out == Concat(outs)
